@@ -799,7 +799,6 @@ func checkGuardedIndexing(p *Prog, res *Result) {
 	}
 }
 
-
 // ---------- R5: allocations sized by request integers ----------
 
 // requestTainted: the backward slice of v (arithmetic, conversions, phis, local variables, struct fields followed
@@ -989,7 +988,6 @@ func checkRequestSizedAllocations(p *Prog, res *Result) {
 	}
 	res.Stats["allocations_with_dynamic_size"] = n
 }
-
 
 // allocSitesOf resolves a pointer value to the allocation sites (Alloc instructions) it can denote: through local
 // variables, phis, interface conversions, and parameters followed to every caller (for the receiver of a method that
